@@ -4,6 +4,6 @@ tier=${1:-quick}; shift
 ids="$@"; [ -z "$ids" ] && ids="C01 C02 C03 C04 C05 C06 C07 C08 C09 C10 C11 C12 C13 C14 C15 C16 C17 C18 C19 C20"
 cd /verif
 for c in $ids; do
-  ./check $c --tier $tier > /tmp/runall_$c.log 2>&1; rc=$?
-  echo "$c rc=$rc $(grep -E '^\[C' /tmp/runall_$c.log | tail -1) $(grep -c VIOLATION /tmp/runall_$c.log) violation-lines $(grep -c INFRA /tmp/runall_$c.log) infra"
+  ./check $c --tier $tier > /tmp/runall_${tier}_$$_$c.log 2>&1; rc=$?
+  echo "$c rc=$rc $(grep -E '^\[C' /tmp/runall_${tier}_$$_$c.log | tail -1) $(grep -c VIOLATION /tmp/runall_${tier}_$$_$c.log) violation-lines $(grep -c INFRA /tmp/runall_${tier}_$$_$c.log) infra"
 done
